@@ -812,6 +812,9 @@ impl<'a> ParserState<'a> {
                         }
                     }
                 }
+                A2lTokenType::Comment => {
+                    // comments are permitted everywhere, also between /end and the tag
+                }
                 _ => {
                     // once balance == 0 is reached for a block, the next tag should be an Identifier
                     if item_is_block && balance == 0 {
